@@ -96,9 +96,14 @@ Scripts == <<
   \*     with a non-empty pool, as fluff and as stem; a pool output labelled Coinbase and (one block later) the now mature
   \*     coinbase labelled Plain are admitted like their truthful forms
   <<SubF({9}, "mislabelled"), Sub({1}), SubF({9}, "mislabelled"), StemSubF({14}, "mislabelled"), SubF({3}, "mislabelled"),
-    Blk({1}), SubF({9}, "mislabelled"), SubF({2}, "declared")>>
+    Blk({1}), SubF({9}, "mislabelled"), SubF({2}, "declared")>>,
+  \* 14: the height-dependent admission rules with the public pool OVER capacity (3 entries, capacity 2; a non-stem
+  \*     OverCapacity means "admit, then evict"): kernel locked to a future height, immature coinbase spends (also with
+  \*     lying input features), NRD kernel - all refused; then a valid one (admitted, one entry evicted)
+  <<Sub({1}), Sub({2}), Sub({8}), Sub({10}), Sub({9}), Sub({13}), Sub({14}), SubF({9}, "mislabelled"), SubF({10}, "declared"),
+    Sub({19})>>
 >> \o (IF ShortReorg THEN <<
-  \* 14: a heavier but shorter fork lowers the height: the spend of coinbase 5 admitted at maturity is immature again
+  \* 15: a heavier but shorter fork lowers the height: the spend of coinbase 5 admitted at maturity is immature again
   <<Blk({}), Blk({}), Sub({14}), Sub({10}), Rg(2, <<{}>>), Sub({19}), Blk({}), Sub({14})>> >> ELSE <<>>)
 ScriptForm == LET a == Scripts[script][nsteps + 1] IN a.form
 
@@ -154,7 +159,10 @@ SimSubmit ==
   \E deagg \in {{t \in Subs : Cardinality(t) > 1 /\ t \notin SeqToSet(txpool) /\ \E x \in SeqToSet(txpool) : x \subseteq t}} :
   \* transactions creating an output commitment that a pooled (public or stem) tx with disjoint kernels also creates
   \E coll \in {{t \in Subs : \E x \in SeqToSet(txpool \o stempool) : x \cap t = {} /\ Created(x) \cap Created(t) # {}}} :
+  \* submissions that only a height-dependent rule keeps out right now (lock height, coinbase maturity) or NRD kernels
+  \E timed \in {{t \in Subs : (\E a \in t : Atoms[a].nrd) \/ Screen(TxOf(t), AtomsIn(txpool)) \in {"locked", "immature"}}} :
   \E t \in {IF r <= 6 /\ good # {} THEN RandomElement(good)
+             ELSE IF r = 8 /\ timed # {} THEN RandomElement(timed)
              ELSE IF r = 10 /\ deagg # {} THEN RandomElement(deagg)
              ELSE IF r = 9 /\ coll # {} THEN RandomElement(coll) ELSE RandomElement(c4)} :
   \E st \in {RandomElement(1..10)} :
@@ -213,4 +221,5 @@ EmitBad(inv, tag) == inv \/ PrintT(<<tag, ToJson(Behaviour)>>) = FALSE
 EmitNoUnderpaid == EmitBad(NoUnderpaid, "POOLCEX")
 EmitPoolJointlyValid == EmitBad(PoolJointlyValid, "POOLCEX")
 EmitStemJointlyValid == EmitBad(StemJointlyValid, "POOLCEX")
+EmitAdmitMatureUnlocked == EmitBad(AdmitMatureUnlocked, "POOLCEX")
 =========================================================================
